@@ -177,6 +177,12 @@ def verify_function(reg, qualname, opts=None) -> FunctionReport:
                 if cond is not None:
                     eng.oblige(f"{qualname}.raises.{exc_name}.sound#p{pidx}", s,
                                spec_bool(eng, cond, _entry_view(s, pre, params)), "raises")
+                elif exc_name in c.opts.get("raises_only_if", {}):
+                    # an exception declared without an exact condition may still have a NECESSARY one
+                    import ast as _ast
+                    node = _ast.parse(c.opts["raises_only_if"][exc_name].strip(), mode="eval").body
+                    eng.oblige(f"{qualname}.raises.{exc_name}.onlyif#p{pidx}", s,
+                               spec_bool(eng, node, _entry_view(s, pre, params)), "raises")
                 for k, e in enumerate(c.opts.get("ensures_on_raise", [])):
                     import ast as _ast
                     node = _ast.parse(e.strip(), mode="eval").body
